@@ -33,7 +33,11 @@ RULE = ("workloads (1-3 requests; raw payload sizes from the alphabet, or "
         "executions with at most B deviations from the default environment "
         "(early/late submission, cancellation, frame loss/duplication/"
         "overtaking, working counter 0, index collision); non-trivial = at "
-        "least one frame was sent; distinct = distinct (workload, choices)")
+        "least one frame was sent; distinct = distinct (workload, choices); "
+        "plus long histories on one master object: N requests one after the "
+        "other, every subset of their frames lost / of their datagrams not "
+        "processed; plus bursts of B+1 concurrent tasks of which one (every "
+        "position) calls roundtrip 1-3 loop iterations after the others")
 
 SIZES = [2, 700, 1400, 1472, 1473]
 KF_STALL = "C12-oversize-request-stalls-sendloop"
@@ -156,11 +160,16 @@ class Transport:
 
 def execute(ch, workload):
     """one execution -> observation dict"""
-    sizes, n_initial, may_cancel = workload
+    sizes, n_initial, may_cancel = workload[:3]
+    # (position, delay): that task calls roundtrip `delay` loop iterations
+    # after it was started
+    late = dict([workload[3]]) if len(workload) > 3 else None
     reqs = [Request(j, s) for j, s in enumerate(sizes)]
     loop = vloop.VLoop()
     obs = dict(stall=None, frames=[], outcomes={}, errors=[], delivered=[],
                log=[])
+    if late is not None:
+        obs["called"] = []
     tp = Transport()
     tp.ch = ch
     guard = execute.guard
@@ -232,11 +241,23 @@ def execute(ch, workload):
             tasks = {}
             pending = list(range(len(sizes)))
 
+            async def calls_later(j, delay):
+                for _ in range(delay):
+                    await asyncio.sleep(0)
+                obs["called"].append(j)
+                return await ec.roundtrip(
+                    ECCmd.FPRD, 1000 + j, 0x100 + j, *reqs[j].args,
+                    data=reqs[j].data)
+
             def submit():
                 j = pending.pop(0)
-                tasks[j] = asyncio.ensure_future(ec.roundtrip(
-                    ECCmd.FPRD, 1000 + j, 0x100 + j, *reqs[j].args,
-                    data=reqs[j].data))
+                if late is not None:
+                    tasks[j] = asyncio.ensure_future(
+                        calls_later(j, late.get(j, 0)))
+                else:
+                    tasks[j] = asyncio.ensure_future(ec.roundtrip(
+                        ECCmd.FPRD, 1000 + j, 0x100 + j, *reqs[j].args,
+                        data=reqs[j].data))
                 obs["log"].append(("submit", j))
             for _ in range(n_initial):
                 submit()
@@ -336,7 +357,7 @@ execute.guard = None
 
 
 def judge(workload, ch, obs, res):
-    sizes, n_initial, may_cancel = workload
+    sizes, n_initial, may_cancel = workload[:3]
     case = dict(workload=workload, choices=list(ch.choices))
 
     def bad(expected, observed, what, kf=None):
@@ -383,7 +404,12 @@ def judge(workload, ch, obs, res):
         if len(places) > 1:
             bad("sent once", places, "request sent more than once")
             return
-    if sent_order != sorted(sent_order):
+    if "called" in obs:
+        # submission = the moment roundtrip was called
+        want = [j for j in obs["called"] if j in where]
+        if sent_order != want:
+            bad(want, sent_order, "datagrams sent out of order")
+    elif sent_order != sorted(sent_order):
         bad("submission order", sent_order, "datagrams sent out of order")
     first_delivery = {}
     for no, wk in obs["delivered"]:
@@ -490,6 +516,77 @@ def workloads(ctx):
     return out
 
 
+class FateChooser(explore.Chooser):
+    """the default environment everywhere, except that the k-th frame handed
+    to the transport is lost iff bit k of `fates` is set (and, with `wkcs`,
+    the k-th delivered datagram is not processed iff bit k of `wkcs` is)"""
+
+    def __init__(self, fates, wkcs=0):
+        super().__init__(())
+        self.fates, self.wkcs = fates, wkcs
+        self.nf = self.nw = 0
+
+    def choose(self, n, kind="", costs=None):
+        c = 0
+        if kind == "fate":
+            c = (self.fates >> self.nf) & 1
+            self.nf += 1
+        elif kind == "wkc":
+            c = (self.wkcs >> self.nw) & 1
+            self.nw += 1
+        self.trace.append((kind, n, c, costs))
+        return c
+
+
+def work_history(item, res):
+    """long histories on one EtherCat object: N small requests submitted one
+    after the other, every subset of their frames lost, (a second pass) every
+    subset of the answered ones not processed"""
+    _, n, what = item
+    workload = ((2,) * n, 1, False)
+    for bits in range(1 << n):
+        ch = FateChooser(bits, 0) if what == "loss" else FateChooser(0, bits)
+        obs = execute(ch, workload)
+        res.count("evaluations")
+        res.count("history_executions")
+        res.count("transitions", len(ch.trace))
+        res.nontrivial.add(core.digest([workload, what, bits]))
+        res.outcomes.add(tuple(sorted((v[0] for v in obs["outcomes"].values())))
+                         + (bool(obs["stall"]),))
+        if len(obs["frames"]) != n and not obs["stall"]:
+            # (judged below; the history is only meaningful if every
+            # request travels in its own frame on the unchanged tree)
+            res.count("histories_with_shared_frames")
+        judge(workload, ch, obs, res)
+    a = execute(FateChooser(5, 0), workload)
+    b = execute(FateChooser(5, 0), workload)
+    if core.digest(a) != core.digest(b):
+        raise core.Internal(f"non-deterministic history for {workload}")
+
+
+def work_burst(item, res):
+    """B+1 tasks started at once, each calling roundtrip as its first step,
+    except one (every position) that calls it 1..3 loop iterations later:
+    requests go out in the order of the calls"""
+    _, B = item
+    for pos in range(B + 1):
+        for delay in (1, 2, 3):
+            workload = ((2,) * (B + 1), B + 1, False, (pos, delay))
+            ch = FateChooser(0, 0)
+            obs = execute(ch, workload)
+            res.count("evaluations")
+            res.count("burst_executions")
+            res.count("transitions", len(ch.trace))
+            res.nontrivial.add(core.digest([workload]))
+            res.outcomes.add(tuple(sorted(
+                (v[0] for v in obs["outcomes"].values())))
+                + (bool(obs["stall"]),))
+            if sorted(obs["called"]) != list(range(B + 1)):
+                raise core.Internal(f"burst {workload}: not every task "
+                                    f"called roundtrip: {obs['called']}")
+            judge(workload, ch, obs, res)
+
+
 def _watchdog(signum, frame):
     raise core.Internal("watchdog: an execution did not terminate")
 
@@ -505,6 +602,10 @@ def work(item, res):
 
 
 def _work(item, res):
+    if item[0] == "history":
+        return work_history(item, res)
+    if item[0] == "burst":
+        return work_burst(item, res)
     workload, bound = item
     seen = set()
 
@@ -532,7 +633,15 @@ def _work(item, res):
 def run(ctx):
     bound = 2 if ctx.quick else 3
     items = workloads(ctx)
+    hist_n = 10 if ctx.quick else 13
+    items += [("history", hist_n, "loss"), ("history", hist_n, "wkc")]
+    items += [("history", n, "loss") for n in range(4, hist_n)]
+    bursts = (1, 2, 14, 15, 16, 17, 29, 30, 31, 32, 33) if ctx.quick \
+        else tuple(range(1, 49))
+    items += [("burst", b) for b in bursts]
     res = core.pmap(ctx, work, items, chunk=1)
+    res.cov["history_requests"] = hist_n
+    res.cov["burst_sizes"] = list(bursts)
     res.cov["states"] = len(res.nontrivial)
     res.cov["traces_validated_against_impl"] = res.cov.get("evaluations", 0)
     res.cov["bound_completed"] = bound
@@ -565,6 +674,8 @@ def replay(ctx, rep):
     c = rep["case"]
     w = c["workload"]
     workload = (tuple(norm_spec(x) for x in w[0]), w[1], w[2])
+    if len(w) > 3:
+        workload += (tuple(w[3]),)
     ch = explore.Chooser(tuple(c["choices"]))
     obs = execute(ch, workload)
     for l in obs["log"]:
